@@ -63,6 +63,14 @@ pub fn readable(addr: u64, len: usize) -> bool {
 /// carrying the full new content (so the trace spec needs no burst lengths) and the
 /// changed offsets. `at` names the observation point that noticed the change.
 pub fn diff_all(at: &str) {
+    if crate::interpose::QUIET_ALL.load(std::sync::atomic::Ordering::SeqCst) {
+        // long cycle runs: keep the snapshots current, log nothing
+        let mut r = REGIONS.lock().unwrap();
+        for x in r.iter_mut() {
+            x.snap = unsafe { peek(x.addr, x.len) };
+        }
+        return;
+    }
     let mut r = REGIONS.lock().unwrap();
     for x in r.iter_mut() {
         let cur = unsafe { peek(x.addr, x.len) };
